@@ -190,6 +190,11 @@ func C19Case(r *Runner, base string, tape *sim.Tape) *Outcome {
 			if co.Res.MaxParked >= 2 {
 				out.stat("probe_two_workers_in_flight", 1)
 			}
+			if co.Res.NumCPU > 0 && co.Res.NumCPU <= 4 {
+				out.stat("runs_with_worker_pool_of_4", 1)
+			} else if co.Res.NumCPU > 0 && co.Res.NumCPU < 12 {
+				out.stat("runs_with_worker_pool_of_5_to_11", 1)
+			}
 			hashes = append(hashes, co.Res.SchedHash)
 			if co.Res.Deadlock {
 				out.V = &sim.Violation{Kind: "deadlock", Site: c.Shape, Detail: "the command stopped making progress" + describe()}
